@@ -16,7 +16,10 @@
 
 package core
 
-import "com.tuntun.rangers/node/src/middleware/types"
+import (
+	"com.tuntun.rangers/node/src/middleware/types"
+	"com.tuntun.rangers/node/src/utility"
+)
 
 func (chain *blockChain) markAddBlock(blockByte []byte) bool {
 	err := chain.hashDB.Put([]byte(addBlockMark), blockByte)
@@ -50,6 +53,22 @@ func (chain *blockChain) eraseRemoveBlockMark() {
 	chain.hashDB.Delete([]byte(removeBlockMark))
 }
 
+// markReorg records the height of the common ancestor a reorganisation is removing blocks down
+// to. The blocks are removed one by one; a node that dies between two of them finishes the
+// removal when it starts again instead of staying at a block in the middle of the branch it left.
+func (chain *blockChain) markReorg(ancestorHeight uint64) bool {
+	err := chain.hashDB.Put([]byte(reorgMark), utility.UInt64ToByte(ancestorHeight))
+	if err != nil {
+		logger.Errorf("Block chain put reorgMark error:%s", err.Error())
+		return false
+	}
+	return true
+}
+
+func (chain *blockChain) eraseReorgMark() {
+	chain.hashDB.Delete([]byte(reorgMark))
+}
+
 func (chain *blockChain) ensureChainConsistency() {
 	addBlockByte, _ := chain.hashDB.Get([]byte(addBlockMark))
 	if addBlockByte != nil {
@@ -65,5 +84,15 @@ func (chain *blockChain) ensureChainConsistency() {
 		logger.Errorf("ensureChainConsistency find removeBlockMark!")
 		chain.remove(block)
 		chain.eraseRemoveBlockMark()
+	}
+
+	reorgByte, _ := chain.hashDB.Get([]byte(reorgMark))
+	if reorgByte != nil {
+		logger.Errorf("ensureChainConsistency find reorgMark!")
+		ancestor := chain.QueryBlockHeaderByHeight(utility.ByteToUInt64(reorgByte), false)
+		if ancestor != nil {
+			chain.removeFromCommonAncestor(ancestor)
+		}
+		chain.eraseReorgMark()
 	}
 }
